@@ -380,6 +380,15 @@ def rule_replay(ctx, fx, config):
                 else:
                     ctx.check(not (set(obs_blocks) & region) or True, "REPLAY", key, "non-node variant %s handled" % vn, "", config, ctx.where(f, tgt))
     ctx.check(found, "REPLAY", "C07:REPLAY:switch", "kind switch found", "cannot find the match on the replayed event's kind", config, ctx.where(f))
+    # a replayed scalar is re-observed with its taggedness: the enforcer counts an untagged plain `<<` key only
+    oktag = False
+    for bb, i, adt, var, fl, ops, s_ in aggregates(f):
+        if adt == "saphyr_parser_bw::Event" and var == "Scalar" and len(s_["rv"]["ops"]) >= 4:
+            with f.deep():
+                tg = render(f.sym_operand(s_["rv"]["ops"][3]))
+            oktag = oktag or ("raw_tag" in tg or ".tag" in tg or "tag" in tg.replace("saphyr_parser_bw::Tag", "")) and not tg.endswith("None{}")
+    ctx.check(oktag, "REPLAY", "C07:REPLAY:scalar-taggedness", "a replayed scalar is re-observed as tagged iff the recorded scalar was tagged",
+              "observe_budget_for_replay hands replayed scalars to the enforcer without a tag: a tagged `<<` key inside a replayed mapping is counted as a merge key", config, ctx.where(f))
     # in next_impl: every Ok(Some(ev)) produced inside the inject loop is dominated by the replay observation
     ni = fx.fn("live_events::LiveEvents::next_impl")
     ctx.saw(ni)
